@@ -9,6 +9,7 @@ import sys
 import time
 
 V = os.path.dirname(os.path.abspath(__file__))
+REPO = os.environ.get('VERIF_REPO', '/repo')          # (a scratch clone with its own VERIF_CACHE may be used instead)
 SEED_CHECKS = {'C01-a': ['C01', 'C12'], 'C12-a': ['C12'], 'C13-a': ['C13'], 'C05-a': ['C05'], 'C18-a': ['C18'], 'C15-a': ['C15'], 'C06-a': ['C06'],
                'C03-a': ['C03'], 'C08-a': ['C08'], 'C04-a': ['C04'], 'C07-a': ['C07'], 'C17-a': ['C17'], 'C02-a': ['C02', 'C10'], 'C09-a': ['C09'],
                'C10-a': ['C10', 'C02'], 'C11-a': ['C11'],
@@ -32,7 +33,9 @@ SEED_CHECKS = {'C01-a': ['C01', 'C12'], 'C12-a': ['C12'], 'C13-a': ['C13'], 'C05
                'C17-g': ['C17', 'C02'], 'C18-g': ['C18', 'C16'],
                'C01-h': ['C01'], 'C02-h': ['C02'], 'C03-h': ['C03'], 'C04-h': ['C04', 'C18'], 'C05-h': ['C05'], 'C06-h': ['C06'], 'C07-h': ['C07'],
                'C08-h': ['C08'], 'C09-h': ['C09', 'C10'], 'C10-h': ['C10'], 'C11-h': ['C11'], 'C12-h': ['C12'], 'C13-h': ['C13'], 'C15-h': ['C15'], 'C16-f': ['C16'],
-               'C17-h': ['C17'], 'C18-h': ['C18'], 'C19-a': ['C19']}
+               'C17-h': ['C17'], 'C18-h': ['C18'], 'C19-a': ['C19'],
+               'C02-i': ['C02', 'C05'], 'C04-i': ['C04', 'C02'], 'C06-i': ['C06', 'C18'], 'C07-i': ['C07'], 'C09-i': ['C09'], 'C11-i': ['C11'], 'C12-i': ['C12'],
+               'C13-i': ['C13'], 'C15-i': ['C15'], 'C16-g': ['C16'], 'C17-i': ['C19'], 'C19-b': ['C19', 'C17']}
 
 
 def run(pid):
@@ -48,7 +51,7 @@ def main():
     only = [a for a in args if a.startswith('C')]
     ok = True
     if 'clean' in args or not args:
-        assert subprocess.run(['git', '-C', '/repo', 'status', '--short', '--untracked-files=no'], stdout=subprocess.PIPE, text=True).stdout.strip() == '', '/repo dirty'
+        assert subprocess.run(['git', '-C', REPO, 'status', '--short', '--untracked-files=no'], stdout=subprocess.PIPE, text=True).stdout.strip() == '', '/repo dirty'
         for pid in claimed:
             if only and pid not in only:
                 continue
@@ -63,7 +66,7 @@ def main():
             patch = os.path.join(V, 'seeded', sid, 'patch.diff')
             if not os.path.exists(patch):
                 continue
-            a = subprocess.run(['git', '-C', '/repo', 'apply', patch])
+            a = subprocess.run(['git', '-C', REPO, 'apply', patch])
             if a.returncode != 0:
                 print('seed %s: patch does not apply' % sid)
                 continue
@@ -76,7 +79,7 @@ def main():
                     v = [l for l in out.splitlines() if l.startswith('VIOLATION')]
                     print('seed %s vs %s rc=%d %.0fs %s' % (sid, pid, rc, dt, v[0][:160] if v else [l for l in out.splitlines() if 'INCONCLUSIVE' in l][:1]))
             finally:
-                subprocess.run(['git', '-C', '/repo', 'checkout', '--', '.'])
+                subprocess.run(['git', '-C', REPO, 'checkout', '--', '.'])
     sys.exit(0 if ok else 1)
 
 
